@@ -21,12 +21,18 @@ STAT_PAIRS = {'blessed_inscription_count': 'BlessedInscriptions', 'cursed_inscri
 ASSUMPTIONS = ["density of numbering over histories and fee-flotsam ordering are not decided"]
 
 
+# jubilee heights: the property's domain names regtest (110) and testnet4 (jubilant from genesis); mainnet/signet/testnet3 are the
+# protocol's activation heights (ord 0.13 release notes) — a changed constant changes which inscriptions are vindicated
+JUBILEE = {'Mainnet': 824544, 'Regtest': 110, 'Signet': 175392, 'Testnet': 2544192, 'Testnet4': 0}
+
+
 def run(ctx):
   F = ctx.facts
   T = TableId(F)
   ctx.rule('R5.1', 'in the Origin::New arm, SEQUENCE_NUMBER_TO_INSCRIPTION_ENTRY, INSCRIPTION_ID_TO_SEQUENCE_NUMBER and INSCRIPTION_NUMBER_TO_SEQUENCE_NUMBER are all written on every path, '
            'from the same sequence_number / inscription_number / inscription_id values, which are also the entry\'s fields')
   ctx.rule('R5.2', 'next_sequence_number, blessed_inscription_count, cursed_inscription_count and unbound_inscriptions each have exactly one += 1 site, and the value used is read before it')
+  ctx.rule('R5.5', 'Chain::jubilee_height returns the protocol constants per network (regtest 110, testnet4 0 = jubilant from genesis, mainnet 824544, signet 175392, testnet3 2544192)')
   ctx.rule('R5.3', 'index_utxo_entries initialises each InscriptionUpdater counter from Statistic::S and writes it back under the same Statistic::S; '
            'next_sequence_number is last stored sequence number + 1 and is written to HEIGHT_TO_LAST_SEQUENCE_NUMBER[self.height]')
   ctx.rule('R5.4', 'the inscription number is negative iff the flotsam is cursed; cursed = curse.is_some() && !jubilant, vindicated = curse.is_some() && jubilant, '
@@ -155,6 +161,21 @@ def run(ctx):
         ko, vo = origins(ib, c.args[1]), origins(ib, c.args[2], named_terminal=True, depth=1)
         ctx.ob('R5.3', ib.n, 'HEIGHT_TO_LAST_SEQUENCE_NUMBER[self.height] <- inscription_updater.next_sequence_number',
                any('height' in o.fields for o in ko) and any('next_sequence_number' in o.fields for o in vo), f'{ko} {vo}', where(ib, c.line))
+
+        from ..panics import guard_strings
+        extra = [g for g in guard_strings(ib, c.bb) if not g.startswith('discr(Try::branch') and not g.startswith('discr(Iterator::next(') and g != 'index_inscriptions==True']
+        ctx.ob('R5.3', ib.n, 'the per-block row of HEIGHT_TO_LAST_SEQUENCE_NUMBER is written for every block (only guard: index_inscriptions)', not extra,
+               f'the row is skipped unless {extra}: readers take the previous height\'s row as the start of a block', where(ib, c.line))
+
+  # ---------------- R5.5
+  jb = ctx.body('R5.5', 'ord::chain::Chain::jubilee_height')
+  if jb is not None:
+    from .common import match_table
+    tab = match_table(F, jb)
+    ctx.anchor('R5.5', 'Chain::jubilee_height is a per-variant constant table', tab is not None, jb.n)
+    for variant, want in JUBILEE.items():
+      got = (tab or {}).get(variant)
+      ctx.ob('R5.5', jb.n, f'jubilee height of {variant} = {want}', got == want, f'{got}', where(jb, jb.line), nontrivial=False)
 
   # ---------------- R5.4
   if ub is not None:
